@@ -54,6 +54,7 @@ class Profile:
         self.bool_fluent_params = False
         self.effect_same_fluent_bias = True
         self.always_defined_numeric = False
+        self.const_atoms = False  # constant-only comparison atoms (1 <= 2)
         for k, v in kw.items():
             if not hasattr(self, k):
                 raise AttributeError(k)
@@ -346,6 +347,9 @@ class Gen:
         return ["/", self.num_expr(scope, depth - 1), ["i", d]]
 
     def bool_atom(self, scope, depth):
+        if self.p.const_atoms and self.b(0.2):
+            op = self.pick(["<=", "<", ">=", ">", "="])
+            return [op, self.small_num(), self.small_num()]
         opts = ["fl", "fl", "fl"]
         if self.p.equality:
             opts.append("eq")
